@@ -69,9 +69,10 @@ func c03Pool(e *c03Env, typ string, base any) []any {
 		add(blobs)
 		add(pubs)
 		add(hashes)
-		if typ == "Any" {
-			out = append(out, nil)
-		}
+	}
+	if typ != "Integer" && typ != "Boolean" {
+		// the Null item: what an SDK sends for a missing value; the one ill-formed address a Hash160 notification admits
+		out = append(out, nil)
 	}
 	return out
 }
@@ -107,6 +108,14 @@ func c03Holds(cl c03Class, v any) bool {
 		}
 	}
 	return false
+}
+
+// c03NullWaives: argument positions at which the Null item does not name "a key nobody holds" but asks for something
+// the documentation allows with fewer witnesses. NNS setAdmin(name, Null) removes the admin, which the owner alone may
+// do (contracts/nns: the new admin's witness is required only when an admin is given) - the two-keys requirement of
+// the row does not apply to it.
+func c03NullWaives(key string, pos int, v any) bool {
+	return v == nil && key == "nns.setAdmin/2" && pos == 1
 }
 
 // c03Mutate draws one replacement value (pool or, for byte strings, random bytes).
@@ -188,7 +197,7 @@ func TestC03ArgSweep(t *testing.T) {
 						e.seq++
 						base := row.args(e)
 						for _, v := range c03Pool(e, typ, base[i]) {
-							if c03Holds(cl, v) {
+							if c03Holds(cl, v) || c03NullWaives(u.key, i, v) {
 								continue
 							}
 							args := append([]any{}, base...)
@@ -257,7 +266,7 @@ func TestC03Args(t *testing.T) {
 				i := rapid.IntRange(0, len(args)-1).Draw(rt, "position")
 				typ := u.par[i].Type.String()
 				v := c03Mutate(rt, e, typ, args[i], fmt.Sprintf("arg%d", i))
-				if c03Holds(cl, v) {
+				if c03Holds(cl, v) || c03NullWaives(u.key, i, v) {
 					h.Mark("kept:value-held-by-the-signers")
 					continue
 				}
